@@ -229,12 +229,15 @@ def MRMorTail (T : Nat) (rs : DRestruct r) : Prop :=
           (some e, m'', s'', cc)
 
 /-- the invariant `I` is kept along the descent of `Remove` for the key `k`: by the leaf's `Remove`, going down to a
-    child, and by writing a child that is neither full nor underflowing back into its parent -/
+    child, and by writing the child on the path of `k`, when it comes back neither full nor underflowing, back into its parent -/
 structure MRInvClosed (cfg : MCfg) (k : MKey) : Prop where
   leaf : ∀ (sl : MDataSlab r) (c : Ctx) rk rv (sl' : MDataSlab r) c', I 0 (sl : MDataSlab r) →
     MDataSlab.remove cfg sl k c = .ok (rk, rv, sl', c') → I 0 (sl' : MDataSlab r)
   down : ∀ (d : Nat) (m : MMetaSlab (MTree r d)) (c : MTree r d), I (d + 1) (m : MMetaSlab (MTree r d)) → c ∈ m.children → I d c
-  store : ∀ (d : Nat) (m : MMetaSlab (MTree r d)) (child' : MTree r d) (i : Nat), I (d + 1) (m : MMetaSlab (MTree r d)) →
+  store : ∀ (d : Nat) (m : MMetaSlab (MTree r d)) (child child' : MTree r d) (i : Nat) (c c1 : Ctx) rk rv,
+    I (d + 1) (m : MMetaSlab (MTree r d)) →
+    MMetaSlab.findChild m.childHdrs (k.dig 0) 0 m.childHdrs.length none (m.childHdrs.length + 1) = some i →
+    m.children[i]? = some child → MTree.remove cfg d child k c = .ok (rk, rv, child', c1) →
     I d child' → MTree.isFull cfg.T d child' = false → MTree.isUnderflow cfg.T d child' = none →
     I (d + 1) ({ m with childHdrs := m.childHdrs.set i (MTree.hdr d child'), children := m.children.set i child',
                         hdr := { m.hdr with firstKey := if i == 0 then (MTree.hdr d child').firstKey else m.hdr.firstKey } } :
@@ -557,7 +560,7 @@ theorem mdr_full_level (hS : MRSplitTail I cfg.T rs) (hM : MRMorTail I cfg.T rs)
             intro id hid heq
             exact (List.nodup_cons.mp hpre.nodup).1 (heq ▸ hid)
           refine ⟨s1.store m.hdr.id (.metaSlab (md_meta (mdr_model_m1 m child' i) x)), ?_, ?_, ?_, ⟨⟨?_, ?_⟩, ?_, hpre.nodup, hpre.hdrs⟩, ?_,
-            hIc.store d m child' i hI hIc' hfull hunder⟩
+            hIc.store d m child child' i s.ctx c1 rk rv hI hf hc hq hIc' hfull hunder⟩
           · refine (hgen _ _ _ _ _ (hgo.trans ?_))
             simp only [mdr_after, hIF, hfull, hIU]
             rfl
